@@ -162,6 +162,21 @@ CONTRACTS = {
                            'cmaxabs(temp._clauses) <= temp._numvar', 'not chaszero(temp._clauses)'],
                    'modifies_objects': ['temp'], 'modifies_fields': {'temp': ['_clauses', '_numvar']}}}),
     (S, 'ExactlyOneSubstitution'): wrapper('oneify', 'count(a, {B}) == 1'),
+    # all equal / not all equal (invert): the closure negates the literal first when `invert` is set
+    (S, 'AllEqualSubstitution.aesubst'): {
+        'property': ['C05', 'C10'],
+        'params': {'lit': 'int'},
+        'closure_vars': {'k': 'int', 'invert': 'bool'},
+        'ghost_params': {'a': 'asg'},
+        'requires': ['lit != 0', 'k >= 1'],
+        'raises': {},
+        'ensures': ['sat(a, asclauses(result)) == (((count(a, {B}) == 0 or count(a, {B}) == k) != invert) == (lit > 0))'.format(B=BLOCK),
+                    'cmaxabs(asclauses(result)) <= abs(lit) * k', 'not chaszero(asclauses(result))'],
+    },
+    (S, 'AllEqualSubstitution'): wrapper(
+        'aesubst', '(count(a, {B}) == 0 or count(a, {B}) == k) != invert', params={'F': 'obj:CNF', 'k': 'int', 'invert': 'bool'}),
+    (S, 'NotAllEqualSubstitution'): dict(
+        wrapper('aesubst', 'not (count(a, {B}) == 0 or count(a, {B}) == k)'), inline=['AllEqualSubstitution']),
     # polarity flip: same variables, every literal negated
     (S, 'FlipPolarity.subst'): {
         'property': ['C05', 'C10'], 'params': {'lit': 'int'}, 'closure_vars': {}, 'ghost_params': {'a': 'asg'},
